@@ -92,7 +92,7 @@ func c16Gen(c *engine.C) engine.Case {
 		}
 	}
 	var ignored []string
-	special := engine.PickTag(c, "special-dirs", "none", ".git", ".idea", "coca_reporter", "empty-dir", ".idea+empty", ".git+.idea", ".idea+coca_reporter", ".git+.idea+coca_reporter", ".idea+nested-namesake", "coca_reporter+nested-namesake")
+	special := engine.PickTag(c, "special-dirs", "none", ".git", ".idea", "coca_reporter", "empty-dir", ".idea+empty", ".git+.idea", ".idea+coca_reporter", ".git+.idea+coca_reporter", ".idea+nested-namesake", "coca_reporter+nested-namesake", ".github+.ideas+coca_reporter_old")
 	emptyDir := false
 	switch special {
 	case ".git", ".idea", "coca_reporter":
@@ -110,6 +110,12 @@ func c16Gen(c *engine.C) engine.Case {
 			files = append(files, c16File{Dir: filepath.Join(d, ig), Lang: "Java", Code: 3 + k, Name: fmt.Sprintf("n%d.java", k)})
 		}
 		dirs = append(dirs, "zeta")
+	case ".github+.ideas+coca_reporter_old":
+		// ordinary directories whose names merely begin with the name of an ignored one: each has a row
+		for k, d := range strings.Split(special, "+") {
+			dirs = append(dirs, d)
+			files = append(files, c16File{Dir: d, Lang: "Java", Code: 4 + k, Name: fmt.Sprintf("g%d.java", k)})
+		}
 	case ".git+.idea", ".idea+coca_reporter", ".git+.idea+coca_reporter":
 		// several ignored directories that are neighbours in the directory listing
 		ignored = strings.Split(special, "+")
